@@ -728,6 +728,23 @@ impl<'e> Report<'e> {
         }
     }
 
+    /// merges the evidence another engine wrote for the same property (path in $VH_EXTRA_EVIDENCE) under
+    /// coverage.extra[key]; the exit status of that engine is handled by ./check
+    pub fn merge_extra_evidence(&mut self, key: &str, what: &str) {
+        if let Ok(p) = std::env::var("VH_EXTRA_EVIDENCE") {
+            match std::fs::read_to_string(&p).ok().and_then(|t| serde_json::from_str::<Value>(&t).ok()) {
+                Some(v) => {
+                    self.note(format!(
+                        "{what}: evaluations={} distinct_nontrivial={} violations={}",
+                        v["coverage"]["evaluations"], v["coverage"]["distinct_nontrivial"], v["violations"]
+                    ));
+                    self.extra.insert(key.to_string(), json!({"coverage": v["coverage"], "assumptions": v["assumptions"], "wall_s": v["wall_s"], "violations": v["violations"]}));
+                }
+                None => self.note(format!("{what}: no evidence file found (that engine did not finish)")),
+            }
+        }
+    }
+
     pub fn finish(self) -> i32 {
         let wall = self.env.start.elapsed().as_secs_f64();
         let mut evaluations = 0u64;
